@@ -10,6 +10,7 @@ import ast
 
 from ..finite import Unrecognised, ev_int
 from ..interp import check_loop, env_read_over, safe_maps
+from ..linform import lin
 from ..program import AnalysisError
 from ..rules import is_call, is_mcall, mentions
 from ..terms import C, Evaluator, G, P, is_t, mk_elem, mk_proj, mk_slice, show, subterms
@@ -116,6 +117,10 @@ def run(chk, prog):
             roles["resume"] = st.value
             roles["retval"] = ast.unparse(st.targets[0].elts[0])
             pos["resume"] = i
+    if "unpack" not in pos or "resume" not in pos:
+        # the recorded (tag, frame) pair is not taken apart by tuple unpacking / the resume call is not a direct time_travel(..)(..) call: a spelling of the
+        # driver loop this rule cannot read (e.g. a NamedTuple read by attribute) - no verdict
+        raise AnalysisError("_record.inner: unrecognised driver loop form (no `(tag, frame) = <next>` unpacking or no direct resume call)")
     okw = all(k in pos for k in ("unpack", "append", "jump", "resume")) and pos["unpack"] < pos["append"] and pos["unpack"] < pos["jump"]
     if okw:
         # the tag maps to the index of the frame recorded in this iteration: len(seq) - 1 once it is appended, len(seq) just before
@@ -202,7 +207,25 @@ def run(chk, prog):
     # continuation structure
     loop = prog.nested(outer, "eval_jaxpr_iterate_cps")
     evk = Evaluator(prog)
-    rk = evk.eval_fn(loop, CI.module, CI, env0={"jaxpr": P("jaxpr"), "out_tree": P("out_tree")})
+    # parameters of the loop whose default is a sibling local function (a strategy passed along instead of a flag) are evaluated at that default: the first visit
+    env0_ = {"jaxpr": P("jaxpr"), "out_tree": P("out_tree")}
+    sib = {n.name: n for n in ast.walk(outer) if isinstance(n, ast.FunctionDef) and n not in (outer, loop)}
+    pos_ = loop.args.args
+    strategy = {}
+    for a_, d_ in list(zip(pos_[len(pos_) - len(loop.args.defaults):], loop.args.defaults)) + [(a_, d_) for a_, d_ in zip(loop.args.kwonlyargs, loop.args.kw_defaults) if d_ is not None]:
+        if isinstance(d_, ast.Name) and d_.id in sib:
+            strategy[a_.arg] = sib[d_.id]
+    bind_ = {}
+    if strategy:
+        evk.eval_fn(outer, CI.module, CI)  # builds the closures of the sibling functions in the outer environment
+        for nm_, node_ in sib.items():
+            cl_ = [("closure", k) for k, c in evk.closures.items() if c.node is node_]
+            if cl_:
+                env0_[nm_] = cl_[0]
+        for pn_, node_ in strategy.items():
+            if node_.name in env0_:
+                bind_[pn_] = env0_[node_.name]
+    rk = evk.eval_fn(loop, CI.module, CI, env0=env0_, bind=bind_)
     LN = loop.name
     # the continuation is found by its role: the closure handed to cps_prim.handle(<kont>, ...)
     konts = [x[2][0] for x in subterms(rk.ret) if is_mcall(x, "handle") and x[2] and evk.closure_of(x[2][0]) is not None]
@@ -215,16 +238,36 @@ def run(chk, prog):
         der = show(kr)[:300]
         EQ = P("eqns")
         el = mk_elem(("enumerate", EQ))
-        okk = is_t(kr, "call") and kr[1] == ("global", "$loop") and len(kr[2]) == 4 and dict(kr[3]).get("rebind") == C(True)
+        rebinds_ = dict(kr[3]).get("rebind") == C(True) if is_t(kr, "call") else False
+        if strategy and is_t(kr, "call"):
+            # (strategy protocol: the recursion hands over a function other than the first-visit default; what it does is judged under /record below)
+            rebinds_ = any(k_ in strategy and evk.closure_of(v_) is not None and evk.closure_of(v_).node is not strategy[k_] for k_, v_ in kr[3])
+        okk = is_t(kr, "call") and kr[1] == ("global", "$loop") and len(kr[2]) == 4 and rebinds_
         if okk:
             a0, a1, a2, a3 = kr[2]
-            okk = is_t(a0, "index") and a0[1] == EQ and a0[2] == ("sliceobj", ("bin", "+", ("enumidx", EQ), C(1)), C(None), C(None)) \
-                and is_mcall(a1, "copy") and a1[1][1] == P("env") and a2 == ("attr", ("elem", EQ), "outvars") and is_call(a3, "tree_leaves")
+            # "resume at the equation after this one", in either protocol of the recursive loop: it receives the remaining equations (eqns[idx + 1:]) or an
+            # absolute start position into the jaxpr's equations (start + position + 1)
+            first = P(loop.args.args[0].arg)
+            suffix_ = lambda: is_t(a0, "index") and a0[1] == EQ and a0[2] == ("sliceobj", ("bin", "+", ("enumidx", EQ), C(1)), C(None), C(None)) and a2 == ("attr", ("elem", EQ), "outvars")
+            def absolute_():
+                rest = [x for x in subterms(a2) if is_t(x, "elem") and is_t(x[1], "index") and x[1][2] == ("sliceobj", first, C(None), C(None))]
+                if not rest or a2 != ("attr", rest[0], "outvars"):
+                    return False
+                return lin(a0) == {frozenset([first]): 1, frozenset([("enumidx", rest[0][1])]): 1, frozenset(): 1}
+            okk = (suffix_() or absolute_()) and is_mcall(a1, "copy") and a1[1][1] == P("env") and is_call(a3, "tree_leaves")
     chk.require(okk, "CPS-CONT", "eval_jaxpr_iterate_cps._kont", "the continuation resumes after this equation on a copied environment", derived=der,
                 expected="eval_jaxpr_iterate_cps(eqns[eqn_idx + 1:], env.copy(), eqn.outvars, tree_leaves(args), rebind=True)", where=where)
     arms = [(c, t) for c, t in rk.returns]
     handle = [t for c, t in arms if is_mcall(t, "handle")]
     reb = [t for c, t in arms if is_t(t, "call") and (evk.closure_of(t[1]) is not None or is_call(t, LN)) and dict(t[3]).get("rebind", C(True)) == C(True)]
+    if strategy and okk:
+        # strategy protocol: the continuation recurses with a function that re-binds the record point and runs on: s(cps, kont, args) = kont(cps(*args))
+        passed = [v for k_, v in kr[3] if k_ in strategy and evk.closure_of(v) is not None] if is_t(kr, "call") else []
+        reb = []
+        for v in passed:
+            t_ = evk.apply(v, [P("$cps"), P("$k"), P("$args")], module=CI.module, cls=CI)
+            if t_ == ("call", P("$k"), (("call", P("$cps"), (("star", P("$args")),), ()),), ()):
+                reb.append(t_)
     okh2 = len(handle) == 1 and handle[0][2][0] in konts and len(reb) >= 1
     chk.require(okh2, "CPS-CONT", "eval_jaxpr_iterate_cps/record", "first visit records through handle(kont, *args); re-bound visits just continue", derived=f"{len(handle)} handle arm(s), {len(reb)} rebind arm(s)", expected="cps_prim.handle(_kont, *args) / _kont(cps_prim(*args))", where=where)
     from ..interp import reader_consts_ok
